@@ -17,7 +17,7 @@ ROOT = os.path.normpath(os.path.join(os.path.dirname(os.path.abspath(__file__)),
 REPO = os.environ.get("QWT_REPO", "/repo")
 LEAN = os.path.join(ROOT, "lean")
 HARN = os.path.join(ROOT, "harness")
-WORK = os.path.join(ROOT, "work")
+WORK = os.environ.get("VERIF_WORK") or os.path.join(ROOT, "work")
 DRIVER = os.path.join(LEAN, ".lake", "build", "bin", "qwtdriver")
 ALLOWED_AXIOMS = {"propext", "Classical.choice", "Quot.sound"}
 ENV = dict(os.environ, CARGO_NET_OFFLINE="true")
@@ -158,8 +158,9 @@ BUILD_FALLBACK = {}
 
 # ------------------------------------------------------------------------------- running
 
-def run_impl(binp, script, outp, log):
-    """run the harness interpreter with crash supervision; returns list of crash records"""
+def run_impl(binp, script, outp, log, prefix=None, cwd=None, env=None):
+    """run the harness interpreter with crash supervision; returns list of crash records.
+    `prefix` replaces the binary by a command prefix (e.g. `cargo +nightly miri run … --`)."""
     if os.path.exists(outp):
         os.remove(outp)
     crashes = []
@@ -177,10 +178,10 @@ def run_impl(binp, script, outp, log):
     guard = 0
     while True:
         guard += 1
-        cmd = [binp, "run", script, outp]
+        cmd = (prefix if prefix else [binp]) + ["run", script, outp]
         if from_case:
             cmd += ["--from-case", str(from_case)]
-        p = subprocess.run(cmd, stdout=subprocess.PIPE, stderr=subprocess.PIPE, env=ENV)
+        p = subprocess.run(cmd, stdout=subprocess.PIPE, stderr=subprocess.PIPE, env=env or ENV, cwd=cwd)
         if p.returncode == 0:
             break
         # crashed: find how many lines were answered
@@ -193,7 +194,11 @@ def run_impl(binp, script, outp, log):
             signame = signal.Signals(sig).name if p.returncode < 0 else f"exit{sig}"
         except ValueError:
             signame = f"sig{sig}"
-        err = p.stderr.decode("utf-8", "replace")[-400:]
+        err_all = p.stderr.decode("utf-8", "replace")
+        k_ub = err_all.find("Undefined Behavior")
+        err = err_all[k_ub:k_ub + 1200] if k_ub >= 0 else err_all[-400:]
+        if k_ub >= 0:
+            signame = "MIRI-UB"
         if crash_line >= len(lines):
             break
         ccase = case_of_line[crash_line]
@@ -207,6 +212,38 @@ def run_impl(binp, script, outp, log):
         from_case = ccase + 1
         if i >= len(lines) or guard > 200:
             break
+    return crashes
+
+
+def miri_available():
+    rc, out = sh(["cargo", "+nightly", "miri", "--version"], cwd=HARN, timeout=120)
+    return rc == 0
+
+
+def miri_subset(script_lines, cases, max_cases=40, max_chars=6000, max_lines=400):
+    """the small cases of a generated script (Miri interprets roughly 1000x slower than native code)"""
+    out = []
+    n = 0
+    for c in cases:
+        seg = script_lines[c["start"]:c["start"] + c["lines"]]
+        if sum(len(l) for l in seg) <= max_chars and len(seg) <= max_lines and not any(l.startswith("threads") for l in seg):
+            out += seg
+            n += 1
+        if n >= max_cases:
+            break
+    return out, n
+
+
+def run_miri(script_p, out_p, log, release=False):
+    """execute a script with the real crate under Miri (validation of the model's claim `no fault`):
+    returns (ok, crashes); a reported Undefined Behavior is a crash record with signal MIRI-UB"""
+    env = dict(ENV)
+    env["MIRIFLAGS"] = "-Zmiri-disable-isolation"
+    prefix = ["cargo", "+nightly", "miri", "run", "--offline", "--target-dir", os.path.join(HARN, "target", "miri")]
+    if release:
+        prefix.append("--release")
+    prefix.append("--")
+    crashes = run_impl(None, script_p, out_p, log, prefix=prefix, cwd=HARN, env=env)
     return crashes
 
 
